@@ -208,3 +208,42 @@ def single(fam, n=3):
 
 def is_single(x):
     return np.asarray(x).dtype in (np.float32, np.complex64)
+
+
+def clone(x):
+    """A private copy of a record with the same dtype AND the same memory layout: a non-contiguous view stays a non-contiguous
+    view (of a fresh interleaved buffer), so that handing the copy to the implementation still exercises strided access."""
+    x = np.asarray(x)
+    if x.ndim == 1 and len(x) > 1 and not x.flags['C_CONTIGUOUS']:
+        buf = np.empty(2 * len(x), dtype=x.dtype)
+        buf[1::2] = 0
+        v = buf[0::2]
+        v[:] = x
+        return v
+    return x.copy()
+
+
+def layout(pt, x):
+    """Replay fidelity: points of the strided family (name ending in '[::2]') are rebuilt as non-contiguous views when the
+    record comes back from a replay file (JSON cannot carry a memory layout)."""
+    x = np.asarray(x)
+    if str(pt.get('name', '')).endswith('[::2]') and x.ndim == 1 and len(x) > 1 and x.flags['C_CONTIGUOUS']:
+        buf = np.empty(2 * len(x), dtype=x.dtype)
+        buf[1::2] = 0
+        v = buf[0::2]
+        v[:] = x
+        return v
+    return x
+
+
+def extreme(fam, n=2, factors=(1e-120, 1e120)):
+    """Records at the far ends of the floating-point range (squares 1e-240 / 1e240 are still representable): a computation that
+    is homogeneous in the data must not form fourth powers or products of energies (they under/overflow here)."""
+    out = []
+    for name, x in fam:
+        x = np.asarray(x)
+        if x.dtype.kind not in 'fc' or len(out) >= n * len(factors):
+            continue
+        for f in factors:
+            out.append(('%s*%g' % (name, f), x * f))
+    return out
